@@ -157,7 +157,10 @@ def gen_history(rng, W, nops: int, nseg: int) -> list:
             elif r < 0.65:
                 ops.append(["gc"])
             elif r < 0.78:
-                ops.append(["tr", rng.choice(sorted(live)), rng.choice(sorted(live)), rng.random() < 0.8])
+                a, b, xy = rng.choice(sorted(live)), rng.choice(sorted(live)), rng.random() < 0.8
+                ops.append(["tr", a, b, xy])
+                if rng.random() < 0.5:   # same pair, other axis convention: the key must tell them apart
+                    ops.append(["tr", a, b, not xy])
             elif r < 0.85:
                 ops.append(["ep", rng.choice(sorted(live))])
             else:
@@ -172,6 +175,30 @@ def gen_history(rng, W, nops: int, nseg: int) -> list:
         for pv in sorted(plive):
             ops.append(["pd", pv])
         ops.append(["gc"])
+    return ops
+
+
+def gen_churn(rng, W) -> list:
+    """allocator churn: request a transformer, drop its source, collect, then build many other systems (CPython
+    reuses the freed addresses) and request transformers for them: each must be for the new pair.  This is the
+    history on which a bounded / non-pinning `_crs_cache` hands out a stale transformer."""
+    codes = list(W.codes)
+    rng.shuffle(codes)
+    sy = lambda c: W.einfo[c]["sys"]  # noqa: E731
+    ops = [["mi", 0, codes[0], sy(codes[0])], ["mi", 1, codes[1], sy(codes[1])], ["tr", 0, 1, True],
+           ["tr", 1, 0, True]]
+    for c in codes[2:6]:
+        ops.append(["ms", 2, rng.choice([f"EPSG:{c}", f"epsg:{c}"]), sy(c)])
+    ops += [["dr", 0], ["dr", 2], ["gc"]]
+    for c in (codes[2:] * 2):
+        how = rng.random()
+        if how < 0.5:
+            ops.append(["mi", 0, c, sy(c)])
+        elif how < 0.8:
+            ops.append(["ms", 0, W.einfo[c]["wkt"], sy(c)])
+        else:
+            ops += [["pe", 0, c, sy(c)], ["mp", 0, 0], ["pd", 0]]
+        ops += [["tr", 0, 1, True], ["tr", 1, 0, rng.random() < 0.7], ["dr", 0], ["gc"]]
     return ops
 
 
@@ -282,8 +309,13 @@ def part_a(R: Run):
     if p4:
         corpus.append([["ms", 0, p4[0], W.info[p4[0]]["sys"]], ["mi", 1, c0, 0], ["eq", 0, 1], ["ep", 0], ["eq", 0, 1],
                        ["ms", 2, p4[-1], W.info[p4[-1]]["sys"]], ["eq", 2, 0], ["eq", 2, 1]])
+        # a copy must carry the *instance's* lazy _epsg, not a freshly computed one
+        corpus.append([["ms", 0, p4[0], W.info[p4[0]]["sys"]], ["mc", 1, 0], ["mi", 2, c0, 0], ["eq", 1, 2], ["eq", 0, 2],
+                       ["pk", 3, 0], ["eq", 3, 2], ["ep", 0], ["mc", 4, 0], ["eq", 4, 2], ["eq", 1, 2]])
     for i, ops in enumerate(corpus):
         jobs.append((f"corpus-{i}", ops))
+    for i in range(R.pick(3, 12)):
+        jobs.append((f"churn-{i}", gen_churn(rng, W)))
     nproc = R.pick(36, 400)
     for i in range(nproc):
         jobs.append((f"rand-{i}", gen_history(rng, W, R.pick(34, 40), R.pick(3, 4))))
@@ -301,7 +333,8 @@ def part_a(R: Run):
             continue
         real = ",".join(res["obs"]) + f" cache={res['cache']} tcache={res['tcache']}"
         kinds = {o[0] for o in ops}
-        sig = "hist|" + ("single" if hid.startswith("single") else "corpus" if hid.startswith("corpus") else "random") \
+        sig = "hist|" + ("single" if hid.startswith("single") else "corpus" if hid.startswith("corpus") else
+                       "churn" if hid.startswith("churn") else "random") \
             + ("|gc" if "gc" in kinds else "") + ("|pyproj-key" if kinds & {"mp", "md"} else "") \
             + ("|err" if any(o.startswith("ERR") for o in res["obs"]) else "")
         R.corr(line, lambda r=real: r, sig=sig)
